@@ -74,7 +74,7 @@ def load_all():
                  'mistletoe.contrib.toc_renderer', 'mistletoe.contrib.github_wiki',
                  'mistletoe.contrib.mathjax', 'mistletoe.contrib.pygments_renderer',
                  'mistletoe.contrib.jira_renderer', 'mistletoe.contrib.xwiki20_renderer',
-                 'mistletoe.cli', 'mistletoe.utils', 'mistletoe.latex_token'):
+                 'mistletoe.cli', 'mistletoe.utils', 'mistletoe.latex_token', 'mistletoe.contrib.scheme'):
         __import__(name)
 
 
